@@ -934,7 +934,7 @@ def p_depth(p):
 POOL = [
     NULL, I(0), I(1), I(5), I(7), I(-3), I(2 ** 70), R(1, 2), R(7, 3), F(1.5), F(2.0), NAN, F(float("inf")),
     ("cpx", f2bits(1.0), f2bits(2.0)),
-    S(""), S("a"), S("abc"), S("héé"),
+    S(""), S("a"), S("abc"), S("héé"), S("é"), S("éa"), S("aé"), S("中文"), S("𝄞x"), S("e\u0301a"), S("\u0301"),
     L(), L(I(1)), L(I(1), I(2)), L(I(1), I(2), I(3)), L(I(1), L(I(2), I(3))), L(L(I(1), I(2)), L(I(3), I(4))),
     L(S("a"), I(1)), L(I(5), I(5)), L(I(1), I(2), I(3), I(4), I(5)),
     D(), D((I(1), I(2))), Vc(I(1), I(2)), B(1, 2), T(I(1), I(2), I(3)),
@@ -942,7 +942,7 @@ POOL = [
     ("func", "print"), TY("int"),
 ]
 ALL_TYPES = BASIC_TYPES + ["struct_instance", ("struct", 0), ("struct", 1), ("sat", 0), ("sat", 1), ("sat", 2), ("sat", 3)]
-LIT_POOL = [NULL, I(0), I(1), I(2), I(5), I(-3), R(1, 2), F(2.0), S("a"), S("abc"), L(I(1), I(2)), L(), X(1, I(3)), NAN]
+LIT_POOL = [NULL, I(0), I(1), I(2), I(5), I(-3), R(1, 2), F(2.0), S("a"), S("abc"), L(I(1), I(2)), L(), X(1, I(3)), NAN, S("é"), S("文")]
 ANN_POOL = [TY(t) for t in ALL_TYPES] + [NULL, I(7)]
 
 
@@ -1058,7 +1058,7 @@ def seq_grid():
 
 
 SEQ_VALUES = [L(), L(I(1)), L(I(1), I(2)), L(I(1), I(2), I(3)), L(I(1), I(2), I(3), I(4)), L(I(1), I(2), I(3), I(4), I(5)),
-              S("ab"), S("héé"), Vc(I(1), I(2), I(3)), B(7, 8), T(I(1), I(2), I(3)), D((I(1), I(2))), I(5), NULL]
+              S("ab"), S("héé"), S("éa"), S("中文"), S("𝄞x"), S("aé"), S(""), Vc(I(1), I(2), I(3)), B(7, 8), T(I(1), I(2), I(3)), D((I(1), I(2))), I(5), NULL]
 
 
 # ----------------------------------------------------------------------------- cases
@@ -1158,6 +1158,20 @@ def gen_cases(ctx):
             cases.append(mk_catch(p, v))
             if not has_lit(p):
                 cases.append(mk_for(p, v))
+    # B2. strings unpack by CHARACTER: non-ASCII strings through every binding form
+    nonascii = [S("é"), S("éa"), S("aé"), S("中文"), S("𝄞x"), S("x𝄞"), S("e\u0301a"), S("\u0301"), S("héé"), S("")]
+    strpats = [PDe(("prepend",), [PV(0), PV(1)]), PDe(("append",), [PV(0), PV(1)]),
+               PDe(("prepend",), [PV(0), PDe(("prepend",), [PV(1), PV(2)])]),
+               PDe(("append",), [PDe(("append",), [PV(0), PV(1)]), PV(2)]),
+               PS([PV(0), PSp(PV(1))]), PS([PSp(PV(0)), PV(1)]), PS([PV(0), PV(1)]), PS([PV(0)], True),
+               PS([PV(0), PSp(PV(1)), PV(2)], True)]
+    for v in nonascii:
+        for p in strpats:
+            cases.append(mk_switch([p], v))
+            cases.append(mk_catch(p, v))
+            cases.append(mk_for(p, v))
+            cases.append(mk_call([p], [v]))
+            cases.append(mk_decl([p], v))
     # C. random nested patterns (depth <= 3) against pool values, 1-3 arms
     nrand = ctx.n(2600, 30000)
     for _ in range(nrand):
@@ -1566,7 +1580,7 @@ def gen_hist(rng, nsteps):
                     lst = L(v)
                 steps.append((f"[zz{y}, zz{x}] = {v_src(lst)}", f"assign seq 1 2 var {y} var {x} {v_model(lst)}", [x, y]))
             else:
-                lst = rng.choice([L(v, w), X(0, v, w), L(v)])
+                lst = rng.choice([L(v, w), X(0, v, w), L(v), S("éa"), S("中文")])
                 steps.append((f"(zz{x} .+ zz{y}) = {v_src(lst)}", f"assign destr prepend 2 var {x} var {y} {v_model(lst)}", [x, y]))
         elif r < 0.7:
             op = rng.choice(ops)
